@@ -567,6 +567,57 @@ func ruleSkipImpliesHook(c *eng.Ctx) {
 					notExist = append(notExist, call)
 				}
 			}
+			// the other direction: a vanished file (any error wrapping os.ErrNotExist, which is
+			// what the file system layer returns: *PathError) is not an unreadable source item
+			vanishedOK := len(notExist) > 0
+			for _, ne := range notExist {
+				if !eng.IsParam(lit, lit.Params[0].Name())(eng.Arg(ne, 0)) {
+					vanishedOK = false
+				}
+				for _, e := range eng.ResultCut(true, 0, ne).EdgeList() {
+					for _, r := range eng.Returns(lit) {
+						if k, isK := eng.RetVal(r, 0).(*ssa.Const); isK && k.IsNil() {
+							continue
+						}
+						if eng.FindPath(eng.EdgeStart(lit, e), r, nil) != nil {
+							vanishedOK = false
+						}
+					}
+				}
+			}
+			// opening the item goes through the filter before the error hook
+			var filterCalls, hookCalls []ssa.CallInstruction
+			for _, call := range eng.Calls(save) {
+				if call.Common().IsInvoke() {
+					continue
+				}
+				for _, org := range eng.Origins(call.Common().Value, nil) {
+					if mc, ok := org.(*ssa.MakeClosure); ok && mc.Fn == ssa.Value(lit) {
+						filterCalls = append(filterCalls, call)
+					}
+					// a literal without free variables is a plain function value
+					if f, ok := org.(*ssa.Function); ok && f == lit {
+						filterCalls = append(filterCalls, call)
+					}
+				}
+				if isHook(save, call) {
+					hookCalls = append(hookCalls, call)
+				}
+			}
+			for _, call := range eng.Calls(save) {
+				if !call.Common().IsInvoke() || call.Common().Method.Name() != "OpenFile" {
+					continue
+				}
+				for _, e := range eng.FailureEdges(call) {
+					for _, h := range hookCalls {
+						if eng.FindPath(eng.EdgeStart(save, e), h.(ssa.Instruction), nil) == nil {
+							continue
+						}
+						c.MustPass(rule, "Archiver.save:open-error→not-exist-filter→hook", eng.EdgeStart(save, e), h.(ssa.Instruction), eng.CallCut(filterCalls...), "the error went through the not-exist filter")
+					}
+				}
+			}
+			c.Check(vanishedOK, rule, "Archiver.save:vanished-files-are-not-errors", lit.Pos(), "the filter tests its argument with errors.Is(err, os.ErrNotExist) (identity comparison never matches the *PathError the file system returns) and yields nil whenever that holds")
 			for _, r := range eng.Returns(lit) {
 				v := eng.RetVal(r, 0)
 				if eng.IsParam(lit, lit.Params[0].Name())(v) {
